@@ -295,6 +295,8 @@ def gen_inclass(rng, knobs=None):
             ["/%s/" % lab, "/%s" % lab],
             ["/%s/k/{*rest}" % lab, "/%s/j" % lab, "/%s/j/" % lab],
             ["/%s/{p}/{q}" % lab, "/%s/{p}" % lab],
+            # a parameter right at the start (right after the nesting prefix, if any)
+            ["/{p}/%s" % lab, "/{p}/%s/{q}" % lab],
         ]
         sh = rng.choice(shapes)
         rng.shuffle(sh)
@@ -316,8 +318,7 @@ def gen_inclass(rng, knobs=None):
     n_handlers_target = rint(rng, kn.n_handlers)
     n_mws_target = rint(rng, kn.n_mws)
     n_obs_target = rint(rng, kn.n_obs)
-    # (known finding: the compiler panics when an error observer applies to a component that returns `pavex::Error`)
-    pavex_errors[0] = kn.p_pavex_errors > 0 and (n_obs_target == 0 or not kn.avoid_known) and rng.random() < kn.p_pavex_errors
+    pavex_errors[0] = kn.p_pavex_errors > 0 and rng.random() < kn.p_pavex_errors
 
     def build_bp(depth, avail_types, budget, own_prefix=False, under_prefix=False, bp_stack=(), owner_fb=False):
         """budget: dict with remaining handlers/mws/obs to place in this subtree.
@@ -633,9 +634,15 @@ def scope_registrations(rng, spec):
                     pinned.add(cid)
                     stack += [u for (u, _m) in m.ctor_inputs(cid, t)]
     root_regs = {it[1]: it for it in spec["bp"]["items"] if it[0] == "ctor"}
-    for cid, it in list(root_regs.items()):
+    # a constructor's own inputs are resolved from the blueprint *it* is registered in: whatever builds them must sit in
+    # that blueprint or in one of its ancestors. Dependents are placed first; a dependency never goes deeper than they do.
+    depth_of = {}
+    for cid in reversed([x for x in spec["ctors"] if x in root_regs]):
+        it = root_regs[cid]
         c = spec["ctors"][cid]
-        if cid in pinned or c.get("generic_param") or cid not in users or rng.random() < 0.4:
+        dependents = [x for x, cx in spec["ctors"].items() if any(m.ctor_out_matches(cid, t) for (t, _m) in m.ctor_inputs(x, cx["out"]) if t in spec["types"] or "<" in t)]
+        limit = min([depth_of.get(x, 0) for x in dependents] + [99])
+        if cid in pinned or c.get("generic_param") or cid not in users or rng.random() < 0.4 or limit == 0:
             continue
         # other registrations for the same type (overrides further down) must not end up next to this one
         if sum(1 for c2 in spec["ctors"].values() if c2["out"] == c["out"]) > 1:
@@ -650,7 +657,8 @@ def scope_registrations(rng, spec):
         if not lca:
             continue
         # somewhere on the path from the root to the blueprint that contains every user
-        depth = rng.randint(1, len(lca))
+        depth = rng.randint(1, min(len(lca), limit))
+        depth_of[cid] = depth
         bp = spec["bp"]
         for i in lca[:depth]:
             bp = [x for x in bp["items"] if x[0] == "nest"][i][2]
@@ -860,11 +868,13 @@ def vary_cloning_representation(rng, spec):
 
 
 GUARD_POOLS = [
-    # mutually disjoint guard sets (distinct registrable domains); the right-most label is always a literal
-    ["app.s0.com", "{sub}.s1.com", "{*any}.s2.com", "{a}.{b}.s3.com"],
-    ["s0.dev", "api.s1.dev", "{sub}.api.s2.dev", "{*rest}.x.s3.dev"],
-    ["{tenant}.s0.io", "s1.io.", "{*any}.s2.io", "v1.{region}.s3.io"],
-    ["{p}x.s0.org", "www.s1.org", "{*w}.cdn.s2.org"],
+    # mutually disjoint guard sets (distinct registrable domains); the right-most label is always a literal. Every pool has a
+    # templated guard that starts with a literal label and sorts before one of the static guards (guards are kept in sorted
+    # order by the compiler, static and templated ones are told apart in the generated router)
+    ["app.s0.com", "{sub}.s1.com", "{*any}.s2.com", "a.{b}.{c}.s3.com"],
+    ["s0.dev", "api.{v}.s1.dev", "{sub}.api.s2.dev", "{*rest}.x.s3.dev"],
+    ["{tenant}.s0.io", "s1.io.", "{*any}.s2.io", "m1.{region}.s3.io"],
+    ["{p}x.s0.org", "www.s1.org", "{*w}.cdn.s2.org", "cdn.{z}.s3.org"],
 ]
 
 
@@ -891,6 +901,20 @@ def domainize(rng, spec):
             out.append(it)
     spec["bp"]["items"] = out
     spec["domains"] = pool[:len(nests)]
+    spare = pool[len(nests):]
+    for i, run in enumerate(nests):
+        # a guard nested inside a guarded blueprint: only requests to the inner domain reach the routes nested under it
+        if spare and len(run) >= 2 and rng.random() < 0.4:
+            a = rng.randint(0, len(run) - 1)
+            b = rng.randint(a + 1, len(run))
+            inner = spare.pop()
+            run[a:b] = [["nest", {"domain": inner}, {"items": run[a:b]}]]
+            spec["domains"].append(inner)
+        # a fallback of the guarded blueprint itself: unknown paths on that domain
+        if rng.random() < 0.5:
+            fid = "FBD%d" % i
+            spec["fallbacks"][fid] = {"ins": [], "status": 460 + i}
+            run.insert(rng.randint(0, len(run)), ["fallback", fid])
 
 
 def repair_known(spec):
@@ -1063,6 +1087,16 @@ def certificate(spec):
                     problems.append("%s needs %s but no constructor is in scope" % (xid, t))
                     continue
                 stack += [u for (u, _) in m.ctor_inputs(cid, t)]
+    # ... and in the scope of the blueprint the injecting *constructor* is registered in (whichever of the two scopes the
+    # compiler uses for a constructor's own inputs, the type can be built)
+    for s_, regs in m.ctor_regs.items():
+        for (_pos, cid, _opts) in regs:
+            c = spec["ctors"][cid]
+            for (t, _mode) in c["ins"]:
+                if t == c.get("generic_param"):
+                    continue
+                if m.resolve(s_, t) is None:
+                    problems.append("constructor %s (registered in %s) needs %s but no constructor is visible from there" % (cid, s_, t))
     return (not problems), problems, clause
 
 
